@@ -183,6 +183,7 @@ void h_list(void)
 	break;
     default:
 	CHECK(list_count(list) == (int)pre.length, "count is the length");
+	REACH("list_count returned");
 	list_view_of(l, &post);
 	break;
     }
@@ -295,6 +296,7 @@ void h_map(void)
 	}
 	check_map_matches_model(map, &m);
     }
+    REACH("map history finished");
     vnaproperty_free(map);
     /* --memory-leak-check: lookups of missing keys leave nothing behind */
 }
